@@ -8,7 +8,7 @@ FK = ["zz_verif_tape.go", "zz_verif_wf.go", "zz_verif_t1.go", "zz_verif_edit.go"
 
 def k1_lemmas(tier):
     ls = []
-    plan = [(4, 1, {}), (5, 1, {})] if tier == "quick" else [(4, 1, {}), (5, 1, {}), (6, 1, {}), (4, 2, {}), (5, 2, {}), (4, 3, {})]
+    plan = [(4, 1, {}), (5, 1, {})] if tier == "quick" else [(4, 1, {}), (5, 1, {}), (6, 1, {}), (4, 2, {})]
     for T, steps, extra in plan:
         ch = {"T": T - 4, "steps": steps - 1}
         ch.update(extra)
@@ -18,7 +18,7 @@ def k1_lemmas(tier):
                              "keeps denoting its own document under all traversal APIs" % (T, steps),
                         bound="tape = %d words, %d interleaved edits" % (T, steps), expect_reach=["K1.cloned", "K1.done"]))
     # string-replacement interplay on tapes that hold a string/number: both sides append to their string buffers
-    for T, steps in ((6, 2),) if tier == "quick" else ((6, 2), (6, 3), (7, 2), (8, 2)):
+    for T, steps in ((6, 2),) if tier == "quick" else ((6, 2), (6, 3)):
         ls.append(Lemma("K1.Clone.setstring.T%d.x%d" % (T, steps), "verifHarness_K1_Clone", FK,
                         splits=[{"T": T - 4, "steps": steps - 1, "op": 5, "via": 0, "strapi": 0, "setstrlen": 1}], split_depth="auto",
                         desc="as K1.Clone with every edit a SetStringBytes of one symbolic byte (both sides grow their string buffers: "
